@@ -96,7 +96,7 @@ PROPS["C09"] = {
 PROPS["C18"] = {
   "engine": "sim_cli", "variant": "cov", "level": "exploration",
   "parts": [{}],
-  "budget_quick": 55, "budget_thorough": 600,
+  "budget_quick": 45, "budget_thorough": 600,
   "rule": "one run = the real `yara` main (and `yarac` for pre-compiled rules) executed in a forked child under the baton scheduler on a generated directory tree (1-200 files, both fewer and more than the 64 queue slots; PE / ELF / text / empty / many-matches contents; nested directories with -r; or a scan-list file; files that cannot be opened) with options drawn from -s -L -X -m -g -e -f -w -c -n -t -i -l, -p N in {1,2,3,4,8,16,32}, externals given to yara or to yarac; directory entries are returned in a seeded order; every basic block of cli/*.c, every pthread/semaphore call under cli/threading.c, thread create/join, printf-family call, allocation and file open is a yield point; policy per run from {random quanta, PCT change points, round robin, one starved thread}. Oracles: multiset of stdout records (rule line + its string lines, contiguous) == union of single-threaded single-file invocations (`-p 1 --scan-list` of one path) with the same options; same for stderr lines; pre-compiled rules give the same output; no deadlock / step budget; exit status != 0 iff an error line was printed. Non-trivial = at least one context switch; distinct = distinct context-switch sequence hash.",
   "components": {"real": ["cli/yara.c main", "cli/yarac.c main", "cli/threading.c", "cli/args.c", "cli/common.c"] + REAL_LIB, "stub": ["pthread_create/join, pthread_mutex_lock/unlock, sem_* beneath cli/threading.c (simulated blocking, baton scheduler)", "opendir/readdir order", "printf/fprintf/putchar/puts sinks", "exit()", "time()", "open() failure for paths named unreadable*"]},
   "assumptions": ["threads are serialised (see C09)", "the schedule is regenerated from (seed, run) on replay", "-a (timeout) and -D (module data dump) are not drawn", "the queue-index lock-set invariant of the design is not implemented; lost/duplicated paths are caught through the output multiset"],
